@@ -38,6 +38,8 @@ m = {
          "kind_free_text": "syn-based mechanical extractor: real fjall functions -> single-file Verus units with contracts spliced in"},
         {"name": "verus", "path": "/usr/local/bin/verus", "serves_properties": [c["property_id"] for c in checks],
          "kind_free_text": "deductive verifier (SMT, modular, unbounded)"},
+        {"name": "kani", "path": "bin/kani_runner.py", "serves_properties": [p for p in props if reg["properties"].get(p, {}).get("kani")],
+         "kind_free_text": "Kani 0.68 / CBMC: complete loop-free full-domain harnesses (kani/verif_kani.rs) on the unextracted crate, thorough tier only"},
     ],
     "checks": checks,
     "not_applicable": na,
